@@ -251,7 +251,7 @@ class C07:
             if getattr(self, "instr", False) or case.get("instr"):
                 # instrumented build: extra pre-emption points inside engine code, on average every <n> function calls
                 r = random.Random(case["simseed"])
-                ctext += "instr %d %d\n" % (r.choice((20, 100, 400, 2000)), r.choice((0, 30, 100, 300)))
+                ctext += "instr %d %d\n" % (r.choice((20, 100, 400, 2000)), r.choice((0, 30, 100, 300, -3000, -8000)))
                 variant = "instr"
             for i, p in enumerate(progs):
                 # (a GlobalContext is a per-thread selection: the concurrent executors run without one)
